@@ -8,7 +8,7 @@ unchanged.  Real Server handlers + real Attribute.read_value/write_value under t
 """
 import struct
 
-from vf.e1 import harness, untraced
+from vf.e1 import harness, untraced, concrete as C
 from vf import flags as _flags
 from vf import detloop
 from vf.props.gattstub import StubBearer, StubEnhancedBearer, make_server, feed, pdus
@@ -164,6 +164,56 @@ def write_gate(perm: int, enc: bool, auth: bool, v0: int, old: int, op: str, tar
     if ok:
         return out[0] == _B(0x13)
     return out[0][0] == 0x01 and out[0][1] == 0x12 and out[0][4] in {0x05, 0x08, 0x0F, 0x03}
+
+
+@harness(pre=['0 <= bits <= 15 and 0 <= v0 <= 3'], family='write-gate', kernels=K + ('bumble.gatt_server.Server.add_service',), timeout=(60, 200), twin=True,
+         grid={'op': ['write_request', 'write_command', 'read']},
+         bounds='a Client Characteristic Configuration descriptor SUPPLIED BY THE APPLICATION with security requirements (any subset of read/write requires encryption/authentication, symbolic) on top of READABLE | WRITEABLE, probed on a link with symbolic security state: the declared requirements hold after registration - a refused write changes neither the descriptor nor the subscription table, a refused read discloses nothing')
+def application_supplied_cccd_keeps_its_permissions(bits: int, enc: bool, auth: bool, v0: int, op: str) -> bool:
+    enc = True if enc else False
+    auth = True if auth else False
+    bits = C(bits, 0, 15)
+    perm = int(P.READABLE | P.WRITEABLE)
+    if bits & 1:
+        perm |= int(P.READ_REQUIRES_ENCRYPTION)
+    if bits & 2:
+        perm |= int(P.WRITE_REQUIRES_ENCRYPTION)
+    if bits & 4:
+        perm |= int(P.READ_REQUIRES_AUTHENTICATION)
+    if bits & 8:
+        perm |= int(P.WRITE_REQUIRES_AUTHENTICATION)
+    with untraced():
+        cccd = gatt.Descriptor(U(0x2902), perm, b'\x00\x00')
+        ch = gatt.Characteristic(U(0x2A00), PR.READ | PR.NOTIFY | PR.INDICATE, int(P.READABLE), b'v', descriptors=[cccd])
+        dev, server = make_server([ch])
+        regs = [a for a in server.attributes if a.type == U(0x2902)]
+    if len(regs) != 1:
+        return False
+    reg = regs[0]
+    conn = StubBearer(23, enc=enc, auth=auth)
+    if op == 'read':
+        pdu = att.ATT_Read_Request(attribute_handle=reg.handle)
+    elif op == 'write_request':
+        pdu = att.ATT_Write_Request(attribute_handle=reg.handle, attribute_value=_B(v0, 0))
+    else:
+        pdu = att.ATT_Write_Command(attribute_handle=reg.handle, attribute_value=_B(v0, 0))
+    with detloop.running() as loop:
+        feed(server, conn, bytes(pdu), loop)
+    out = pdus(dev)
+    if op == 'read':
+        ok = allowed_read(perm, enc, auth)
+        if len(out) != 1:
+            return False
+        return (out[0][0] == 0x0B) if ok else (out[0][0] == 0x01 and out[0][1] == 0x0A and out[0][4] in _ERR)
+    ok = allowed_write(perm, enc, auth)
+    subscribed = bool(server.subscribers.get(conn))
+    if not ok and subscribed:
+        return False                       # a refused write must not create a subscription
+    if op == 'write_command':
+        return out == []
+    if len(out) != 1:
+        return False
+    return (out[0] == _B(0x13)) if ok else (out[0][0] == 0x01 and out[0][1] == 0x12 and out[0][4] in {0x05, 0x08, 0x0F, 0x03})
 
 
 @harness(pre=['0 <= s0 <= 255 and 0 <= s1 <= 255 and s0 != s1'], family='read-gate', kernels=K, grid={'gt': [0x2800, 0x2803]},
